@@ -267,6 +267,8 @@ func (d *Decoder) readTypedList(tag byte) (interface{}, error) {
 		}
 	}
 
+	holder.done = true
+	holder.notify()
 	return holder, nil
 }
 
@@ -336,5 +338,7 @@ func (d *Decoder) readUntypedList(tag byte) (interface{}, error) {
 		}
 	}
 
+	holder.done = true
+	holder.notify()
 	return holder, nil
 }
